@@ -209,7 +209,8 @@ func (s *StorageInterface) Delete(key string) error {
 		return storage.ErrNotFound
 	}
 
-	n.delete(true)
+	// Do not push an update, the database controller notifies subscribers.
+	n.delete(false)
 	return nil
 }
 
